@@ -90,7 +90,7 @@ HARNESSES.update({
 
 # ---------------------------------------------------------------- C03 / C04: async_step family
 _TYPES = {"ffi": "FastFixedIn", "ffo": "FastFixedOut", "sfi": "SincFixedIn+Probe", "sfo": "SincFixedOut+Probe"}
-_STEP_ROWS = [('c03_ffi_nearest_full', 'ffi', 'f64', 'PolynomialDegree::Nearest', 2, 2.0, 20, '[(1.0, 4)]', 'full', 'quick'), ('c03_ffi_nearest_grid', 'ffi', 'f64', 'PolynomialDegree::Nearest', 2, 2.0, 20, '[(1.0, 4)]', 'grid', 'thorough'), ('c03_ffi_linear_full', 'ffi', 'f64', 'PolynomialDegree::Linear', 2, 2.0, 20, '[(0.5, 5)]', 'full', 'thorough'), ('c03_ffi_linear_grid', 'ffi', 'f64', 'PolynomialDegree::Linear', 2, 2.0, 20, '[(0.5, 5)]', 'grid', 'quick'), ('c03_ffi_cubic_full', 'ffi', 'f32', 'PolynomialDegree::Cubic', 2, 3.0, 22, '[(3.0, 2)]', 'full', 'thorough'), ('c03_ffi_cubic_grid', 'ffi', 'f32', 'PolynomialDegree::Cubic', 2, 3.0, 22, '[(3.0, 2)]', 'grid', 'quick'), ('c03_ffi_quintic_full', 'ffi', 'f32', 'PolynomialDegree::Quintic', 3, 2.0, 22, '[(0.5, 4)]', 'full', 'thorough'), ('c03_ffi_quintic_grid', 'ffi', 'f32', 'PolynomialDegree::Quintic', 3, 2.0, 22, '[(0.5, 4)]', 'grid', 'thorough'), ('c03_ffi_septic_full', 'ffi', 'f32', 'PolynomialDegree::Septic', 3, 2.0, 22, '[(1.0, 3)]', 'full', 'thorough'), ('c03_ffi_septic_grid', 'ffi', 'f32', 'PolynomialDegree::Septic', 3, 2.0, 22, '[(1.0, 3)]', 'grid', 'thorough'), ('c03_ffo_nearest_full', 'ffo', 'f64', 'PolynomialDegree::Nearest', 2, 2.0, 20, '[]', 'full', 'quick'), ('c03_ffo_nearest_grid', 'ffo', 'f64', 'PolynomialDegree::Nearest', 2, 2.0, 20, '[]', 'grid', 'thorough'), ('c03_ffo_linear_full', 'ffo', 'f64', 'PolynomialDegree::Linear', 3, 3.0, 24, '[(1.0 / 3.0, 2)]', 'full', 'quick'), ('c03_ffo_linear_grid', 'ffo', 'f64', 'PolynomialDegree::Linear', 3, 3.0, 24, '[(1.0 / 3.0, 2)]', 'grid', 'thorough'), ('c03_ffo_cubic_full', 'ffo', 'f32', 'PolynomialDegree::Cubic', 2, 3.0, 22, '[(3.0, 2)]', 'full', 'quick'), ('c03_ffo_cubic_grid', 'ffo', 'f32', 'PolynomialDegree::Cubic', 2, 3.0, 22, '[(3.0, 2)]', 'grid', 'thorough'), ('c03_ffo_quintic_full', 'ffo', 'f32', 'PolynomialDegree::Quintic', 2, 2.0, 20, '[(0.5, 1)]', 'full', 'thorough'), ('c03_ffo_quintic_grid', 'ffo', 'f32', 'PolynomialDegree::Quintic', 2, 2.0, 20, '[(0.5, 1)]', 'grid', 'quick'), ('c03_ffo_septic_full', 'ffo', 'f32', 'PolynomialDegree::Septic', 2, 2.0, 20, '[(1.0, 1)]', 'full', 'thorough'), ('c03_ffo_septic_grid', 'ffo', 'f32', 'PolynomialDegree::Septic', 2, 2.0, 20, '[(1.0, 1)]', 'grid', 'quick'), ('c03_sfi_nearest_full', 'sfi', 'f64', 'boxed64, SincInterpolationType::Nearest, 8, 1', 2, 2.0, 20, '[(1.0, 4)]', 'full', 'quick'), ('c03_sfi_nearest_grid', 'sfi', 'f64', 'boxed64, SincInterpolationType::Nearest, 8, 1', 2, 2.0, 20, '[(1.0, 4)]', 'grid', 'thorough'), ('c03_sfi_linear_full', 'sfi', 'f64', 'boxed64, SincInterpolationType::Linear, 8, 2', 2, 2.0, 20, '[(0.5, 5)]', 'full', 'thorough'), ('c03_sfi_linear_grid', 'sfi', 'f64', 'boxed64, SincInterpolationType::Linear, 8, 2', 2, 2.0, 20, '[(0.5, 5)]', 'grid', 'quick'), ('c03_sfi_cubic_full', 'sfi', 'f32', 'boxed32, SincInterpolationType::Cubic, 8, 4', 2, 2.0, 20, '[(2.0, 3)]', 'full', 'thorough'), ('c03_sfi_cubic_grid', 'sfi', 'f32', 'boxed32, SincInterpolationType::Cubic, 8, 4', 2, 2.0, 20, '[(2.0, 3)]', 'grid', 'quick'), ('c03_sfi_quadratic_full', 'sfi', 'f32', 'boxed32, SincInterpolationType::Quadratic, 8, 3', 2, 3.0, 22, '[(3.0, 2)]', 'full', 'thorough'), ('c03_sfi_quadratic_grid', 'sfi', 'f32', 'boxed32, SincInterpolationType::Quadratic, 8, 3', 2, 3.0, 22, '[(3.0, 2)]', 'grid', 'quick'), ('c03_sfo_nearest_full', 'sfo', 'f64', 'boxed64, SincInterpolationType::Nearest, 8, 1', 2, 2.0, 20, '[]', 'full', 'quick'), ('c03_sfo_nearest_grid', 'sfo', 'f64', 'boxed64, SincInterpolationType::Nearest, 8, 1', 2, 2.0, 20, '[]', 'grid', 'thorough'), ('c03_sfo_linear_full', 'sfo', 'f64', 'boxed64, SincInterpolationType::Linear, 8, 2', 3, 3.0, 24, '[(1.0 / 3.0, 2)]', 'full', 'thorough'), ('c03_sfo_linear_grid', 'sfo', 'f64', 'boxed64, SincInterpolationType::Linear, 8, 2', 3, 3.0, 24, '[(1.0 / 3.0, 2)]', 'grid', 'quick'), ('c03_sfo_cubic_full', 'sfo', 'f32', 'boxed32, SincInterpolationType::Cubic, 8, 4', 3, 2.0, 20, '[(1.0, 1)]', 'full', 'thorough'), ('c03_sfo_cubic_grid', 'sfo', 'f32', 'boxed32, SincInterpolationType::Cubic, 8, 4', 3, 2.0, 20, '[(1.0, 1)]', 'grid', 'quick'), ('c03_sfo_quadratic_full', 'sfo', 'f32', 'boxed32, SincInterpolationType::Quadratic, 8, 3', 2, 3.0, 22, '[(3.0, 2)]', 'full', 'thorough'), ('c03_sfo_quadratic_grid', 'sfo', 'f32', 'boxed32, SincInterpolationType::Quadratic, 8, 3', 2, 3.0, 22, '[(3.0, 2)]', 'grid', 'quick')]
+_STEP_ROWS = [('c03_ffi_nearest_full', 'ffi', 'f64', 'PolynomialDegree::Nearest', 2, 2.0, 20, '[(1.0, 4)]', 'full', 'quick'), ('c03_ffi_nearest_grid', 'ffi', 'f64', 'PolynomialDegree::Nearest', 2, 2.0, 20, '[(1.0, 4)]', 'grid', 'thorough'), ('c03_ffi_linear_full', 'ffi', 'f64', 'PolynomialDegree::Linear', 2, 2.0, 20, '[(0.5, 5)]', 'full', 'thorough'), ('c03_ffi_linear_grid', 'ffi', 'f64', 'PolynomialDegree::Linear', 2, 2.0, 20, '[(0.5, 5)]', 'grid', 'quick'), ('c03_ffi_cubic_full', 'ffi', 'f32', 'PolynomialDegree::Cubic', 2, 3.0, 22, '[(3.0, 4)]', 'full', 'thorough'), ('c03_ffi_cubic_grid', 'ffi', 'f32', 'PolynomialDegree::Cubic', 2, 3.0, 22, '[(3.0, 4)]', 'grid', 'quick'), ('c03_ffi_quintic_full', 'ffi', 'f32', 'PolynomialDegree::Quintic', 3, 2.0, 22, '[(0.5, 4)]', 'full', 'thorough'), ('c03_ffi_quintic_grid', 'ffi', 'f32', 'PolynomialDegree::Quintic', 3, 2.0, 22, '[(0.5, 4)]', 'grid', 'thorough'), ('c03_ffi_septic_full', 'ffi', 'f32', 'PolynomialDegree::Septic', 3, 2.0, 22, '[(1.0, 3)]', 'full', 'thorough'), ('c03_ffi_septic_grid', 'ffi', 'f32', 'PolynomialDegree::Septic', 3, 2.0, 22, '[(1.0, 3)]', 'grid', 'thorough'), ('c03_ffo_nearest_full', 'ffo', 'f64', 'PolynomialDegree::Nearest', 2, 2.0, 20, '[]', 'full', 'quick'), ('c03_ffo_nearest_grid', 'ffo', 'f64', 'PolynomialDegree::Nearest', 2, 2.0, 20, '[]', 'grid', 'thorough'), ('c03_ffo_linear_full', 'ffo', 'f64', 'PolynomialDegree::Linear', 3, 3.0, 24, '[(1.0 / 3.0, 2)]', 'full', 'quick'), ('c03_ffo_linear_grid', 'ffo', 'f64', 'PolynomialDegree::Linear', 3, 3.0, 24, '[(1.0 / 3.0, 2)]', 'grid', 'thorough'), ('c03_ffo_cubic_full', 'ffo', 'f32', 'PolynomialDegree::Cubic', 2, 3.0, 22, '[(3.0, 2)]', 'full', 'quick'), ('c03_ffo_cubic_grid', 'ffo', 'f32', 'PolynomialDegree::Cubic', 2, 3.0, 22, '[(3.0, 2)]', 'grid', 'thorough'), ('c03_ffo_quintic_full', 'ffo', 'f32', 'PolynomialDegree::Quintic', 2, 2.0, 20, '[(0.5, 1)]', 'full', 'thorough'), ('c03_ffo_quintic_grid', 'ffo', 'f32', 'PolynomialDegree::Quintic', 2, 2.0, 20, '[(0.5, 1)]', 'grid', 'quick'), ('c03_ffo_septic_full', 'ffo', 'f32', 'PolynomialDegree::Septic', 2, 2.0, 20, '[(1.0, 1)]', 'full', 'thorough'), ('c03_ffo_septic_grid', 'ffo', 'f32', 'PolynomialDegree::Septic', 2, 2.0, 20, '[(1.0, 1)]', 'grid', 'quick'), ('c03_sfi_nearest_full', 'sfi', 'f64', 'boxed64, SincInterpolationType::Nearest, 8, 1', 2, 2.0, 20, '[(1.0, 4)]', 'full', 'quick'), ('c03_sfi_nearest_grid', 'sfi', 'f64', 'boxed64, SincInterpolationType::Nearest, 8, 1', 2, 2.0, 20, '[(1.0, 4)]', 'grid', 'thorough'), ('c03_sfi_linear_full', 'sfi', 'f64', 'boxed64, SincInterpolationType::Linear, 8, 2', 2, 2.0, 20, '[(0.5, 5)]', 'full', 'thorough'), ('c03_sfi_linear_grid', 'sfi', 'f64', 'boxed64, SincInterpolationType::Linear, 8, 2', 2, 2.0, 20, '[(0.5, 5)]', 'grid', 'quick'), ('c03_sfi_cubic_full', 'sfi', 'f32', 'boxed32, SincInterpolationType::Cubic, 8, 4', 2, 2.0, 20, '[(2.0, 3)]', 'full', 'thorough'), ('c03_sfi_cubic_grid', 'sfi', 'f32', 'boxed32, SincInterpolationType::Cubic, 8, 4', 2, 2.0, 20, '[(2.0, 3)]', 'grid', 'quick'), ('c03_sfi_quadratic_full', 'sfi', 'f32', 'boxed32, SincInterpolationType::Quadratic, 8, 3', 2, 3.0, 22, '[(3.0, 4)]', 'full', 'thorough'), ('c03_sfi_quadratic_grid', 'sfi', 'f32', 'boxed32, SincInterpolationType::Quadratic, 8, 3', 2, 3.0, 22, '[(3.0, 4)]', 'grid', 'quick'), ('c03_sfo_nearest_full', 'sfo', 'f64', 'boxed64, SincInterpolationType::Nearest, 8, 1', 2, 2.0, 20, '[]', 'full', 'quick'), ('c03_sfo_nearest_grid', 'sfo', 'f64', 'boxed64, SincInterpolationType::Nearest, 8, 1', 2, 2.0, 20, '[]', 'grid', 'thorough'), ('c03_sfo_linear_full', 'sfo', 'f64', 'boxed64, SincInterpolationType::Linear, 8, 2', 3, 3.0, 24, '[(1.0 / 3.0, 2)]', 'full', 'thorough'), ('c03_sfo_linear_grid', 'sfo', 'f64', 'boxed64, SincInterpolationType::Linear, 8, 2', 3, 3.0, 24, '[(1.0 / 3.0, 2)]', 'grid', 'quick'), ('c03_sfo_cubic_full', 'sfo', 'f32', 'boxed32, SincInterpolationType::Cubic, 8, 4', 3, 2.0, 20, '[(1.0, 1)]', 'full', 'thorough'), ('c03_sfo_cubic_grid', 'sfo', 'f32', 'boxed32, SincInterpolationType::Cubic, 8, 4', 3, 2.0, 20, '[(1.0, 1)]', 'grid', 'quick'), ('c03_sfo_quadratic_full', 'sfo', 'f32', 'boxed32, SincInterpolationType::Quadratic, 8, 3', 2, 3.0, 22, '[(3.0, 2)]', 'full', 'thorough'), ('c03_sfo_quadratic_grid', 'sfo', 'f32', 'boxed32, SincInterpolationType::Quadratic, 8, 3', 2, 3.0, 22, '[(3.0, 2)]', 'grid', 'quick')]
 for (hn, mac, T, args, chunk, maxrel, unw, warm, dom, tier) in _STEP_ROWS:
     HARNESSES[hn] = H("c03", ["C03", "C04"], tier=tier, cap=600, mem=6,
         sym=("new ratio: every f64 accepted by set_resample_ratio (D_full)" if dom == "full" else
